@@ -887,10 +887,14 @@ def get_charnos(node: ast.AST, source: str, keep_first_indent: bool = False) -> 
     if code and code[-1] == " ":
         whitespace = max(re.findall(r" *\Z$", code), key=len)
         end_charno -= len(whitespace)
-    if start_charno > 0 and source[start_charno - 1] == "@" and isinstance(
+    if start is not node and isinstance(
         node, (ast.ClassDef, ast.FunctionDef, ast.AsyncFunctionDef)
     ):
-        start_charno -= 1
+        # The first decorator starts after its "@"; blanks, a line continuation or an opening
+        # parenthesis may come in between
+        at_charno = len(source[:start_charno].rstrip(" \t\f\\\r\n(")) - 1
+        if at_charno >= 0 and source[at_charno] == "@":
+            start_charno = at_charno
     if keep_first_indent:
         whitespace = max(re.findall(r" *\Z$", source[:start_charno]), key=len)
         start_charno -= len(whitespace)
